@@ -197,8 +197,6 @@ func canon(machs, reqs [][2]int) uint64 {
 	return k
 }
 
-func classOf(nm, nr int) string { return fmt.Sprintf("machines=%d,requests=%d", nm, nr) }
-
 // checkQueue verifies that q (slice order) holds every input id exactly once,
 // that each element's index field equals its position, and the heap invariant
 // under less.
@@ -242,7 +240,7 @@ func checkPlacement(l *placementLocal, ord int64, machs, reqs [][2]int) {
 	l.calls++
 	l.states[canon(machs, reqs)] = struct{}{}
 	bug := func(oracle, why string) {
-		l.bug("C14/a/"+oracle+"/"+classOf(len(machs), len(reqs)), ord, machs, reqs, res, why)
+		l.bug("C14/a/"+oracle, ord, machs, reqs, res, why)
 	}
 	if res.Panic != "" {
 		bug("schedule-panics", res.Panic)
@@ -396,7 +394,9 @@ func runPlacement(r *ev.Run, b bounds) (cov map[string]interface{}, states, tran
 	mseqs := sequences(machineKinds(b.MaxCap), b.MaxMachines)
 	rseqs := sequences(requestKinds(b.Priorities, b.MaxProcs), b.MaxRequests)
 	agg := &placementAgg{bugs: map[string]*placementBug{}, states: map[uint64]struct{}{}, outcomes: map[[4]int]int64{}}
-	ev.Parallel(len(mseqs), 16, func(mi int) {
+	rot := int(uint64(r.Seed) % uint64(len(mseqs))) // VERIF_SEED rotates the visiting order only
+	ev.Parallel(len(mseqs), 16, func(k int) {
+		mi := (k + rot) % len(mseqs)
 		l := newLocal()
 		for ri, rs := range rseqs {
 			checkPlacement(l, int64(mi)*int64(len(rseqs))+int64(ri), mseqs[mi], rs)
